@@ -397,15 +397,22 @@ fn literal_case(src: &mut Src, ctx: &mut Ctx) -> Result<(), String> {
         "MACRO m SIZE 1.50 BY 2.5 ; PIN a PORT LAYER met1 ; RECT 0.1 0.25 1.50 2.000 ; END END a END m END LIBRARY",
         "MACRO m SIZE 3 BY 2 ; PIN a PORT LAYER met1 ; RECT 0 1 2 3 ; END PORT LAYER met1 ; RECT 4 5 6 7 ; LAYER met2 ; POLYGON 0 0 1 0 1 2 ; END END a OBS LAYER met1 ; WIDTH 0.14 ; PATH 0 0 0 5 -1.5 5 ; END END m END LIBRARY",
     ];
+    // a library naming a few hundred layers (every name gets a layer of its own)
+    let mut many = String::from("MACRO wide SIZE 1 BY 1 ; OBS ");
+    for k in 0..320 {
+        many.push_str(&format!("LAYER lay{} ; RECT 0 {} 1 {} ; ", k, k, k + 1));
+    }
+    many.push_str("END END wide END LIBRARY");
+    let texts: Vec<&str> = texts.iter().cloned().chain(std::iter::once(many.as_str())).collect();
     let i = src.u64() as usize % texts.len();
     let lib = open_text(texts[i]).map_err(|e| format!("literal rejected by the reader: {:?}", e))?;
-    oracle(&lib, &Flags::default(), ctx).map_err(|e| format!("[{}] {}", texts[i], e))
+    oracle(&lib, &Flags::default(), ctx).map_err(|e| { let mut t = texts[i].to_string(); crate::engine::clip(&mut t, 200); format!("[{}] {}", t, e) })
 }
 fn run(run: &mut Run) {
     run.rule("LEF libraries with 1-5 macros: SIZE, 0-6 pins with 1-3 ports, 0-4 obstruction blocks, rectangles / polygons / paths (LAYER WIDTH) on a small pool of layer names (so the same layer recurs within a pin), coordinates with 0-4 significant decimals written with 0-6 decimals, negatives, x != y always; 1 in 4 through rendered text and the reader; classes 'not a whole number of raw units' (must be an error) and documented-unsupported features (error accepted). Oracle: decimal-scaling model value x 10000 on (mantissa, scale) integers. Non-trivial = library with a pin geometry (or the non-integral class); distinct by hash of the value.");
     run.assume("the importer's raw unit is the angstrom (10000 per micron), as its documentation says; layer numbers, vias, masks are not compared");
     run.min_nontrivial = 200;
-    run.literals("literals", &[vec![0, 0], vec![0, 1]], &literal_case);
+    run.literals("literals", &[vec![0, 0], vec![0, 1], vec![0, 2]], &literal_case);
     run.explore("import", run.tier.pick(300_000, 4_000_000), 1500, &main_case);
 }
 fn case(sub: &str) -> Option<Box<CaseFn<'static>>> {
